@@ -92,6 +92,21 @@ class Contract:
         ls.invariants.append(Clause("invariant", name or "inv%d.%d" % (ordinal, len(ls.invariants)), invariant, None, tags))
         return self
 
+    def loop_variant(self, variant, ordinal, invariant, name=None, tags=""):
+        """an alternative set of loop invariants (variant >= 1): tried by the verifier, in order, when the default set does not
+        carry the proof - e.g. for the same search loop written with a sentinel, or stepping the candidate instead of a counter"""
+        if not hasattr(self, "loop_variants"):
+            self.loop_variants = {}
+        ls = self.loop_variants.setdefault(variant, {}).setdefault(ordinal, LoopSpec(ordinal))
+        ls.invariants.append(Clause("invariant", name or "inv%d.%d" % (ordinal, len(ls.invariants)), invariant, None, tags))
+        return self
+
+    def loop_variant_ghost(self, variant, ordinal, name, init, update):
+        if not hasattr(self, "loop_variants"):
+            self.loop_variants = {}
+        ls = self.loop_variants.setdefault(variant, {}).setdefault(ordinal, LoopSpec(ordinal))
+        ls.ghost.append((name, init, update)); return self
+
     def loop_ghost(self, ordinal, name, init, update):
         ls = self.loops.setdefault(ordinal, LoopSpec(ordinal))
         ls.ghost.append((name, init, update)); return self
